@@ -291,7 +291,7 @@ func hostileLeaf(r *core.Rng) func(i int) string {
 
 func run(c *core.Ctx) {
 	r := c.Rng("templates")
-	nT := c.N(8000, 200000) / c.NShards
+	nT := c.N(40000, 400000) / c.NShards
 	nA := c.N(6, 12)
 	for i := 0; i < nT; i++ {
 		o := gen.TmplOpts{Lexical: 30, Control: 40, Helpers: 25, Tear: 15, Odd: 20, BadPos: 10, MaxDepth: 3, HelperInAttrOnce: false}
